@@ -361,7 +361,7 @@ func c03Prog(env *core.Env, kind, src, tn string, seed uint64, rich bool) {
 			if inputNodes[m] {
 				continue
 			}
-			if c03FreshAllowed(m, tree) {
+			if c03FreshAllowed(m, tree) || c03SynthReference(m, inputNodes) {
 				continue
 			}
 			env.Violatef("C03/result-not-an-input-node/"+shape, "%s: result item %d (%s) is a FHIR element that is not one of the input's own nodes", d, i, fx.Render(it))
@@ -505,4 +505,48 @@ func runC03(env *core.Env) {
 		}
 		c03Prog(env, "generated-program", src, tn, seed, rich)
 	}
+}
+
+// c03SynthReference: a String equal to the rendering of some input Reference (typed references are
+// synthesized as "Type/id[/_history/v]" by design, also for references supplied through %env).
+func c03SynthReference(m proto.Message, inputs map[proto.Message]bool) bool {
+	s, ok := m.(*dtpb.String)
+	if !ok {
+		return false
+	}
+	for in := range inputs {
+		ref, ok := in.(*dtpb.Reference)
+		if !ok {
+			continue
+		}
+		rm := ref.ProtoReflect()
+		od := rm.Descriptor().Oneofs().ByName("reference")
+		f := rm.WhichOneof(od)
+		if f == nil {
+			continue
+		}
+		var want string
+		switch string(f.Name()) {
+		case "uri":
+			want = ref.GetUri().GetValue()
+		case "fragment":
+			want = "#" + ref.GetFragment().GetValue()
+		default:
+			rid := rm.Get(f).Message().Interface().(*dtpb.ReferenceId)
+			parts := strings.Split(strings.TrimSuffix(string(f.Name()), "_id"), "_")
+			for i, p := range parts {
+				if p != "" {
+					parts[i] = strings.ToUpper(p[:1]) + p[1:]
+				}
+			}
+			want = strings.Join(parts, "") + "/" + rid.GetValue()
+			if rid.GetHistory() != nil {
+				want += "/_history/" + rid.GetHistory().GetValue()
+			}
+		}
+		if want == s.Value {
+			return true
+		}
+	}
+	return false
 }
